@@ -337,6 +337,7 @@ func c14CheckViews(sink func(cat, kind, key, observed, expected string), exp []c
 type c14Fix struct {
 	calls []string
 	kind  string // "" = decide from the shape of the edit
+	extra int    // number of custom names appended to the built-in name table (passed with the first call)
 }
 
 // c14ApplyExpected edits the harness' own record list the way the fix-up is documented to work:
@@ -690,6 +691,11 @@ func searchC14() {
 		{calls: []string{"209912310120991231", "20991231~000000000"}},                         // add, then remove the added record
 		{calls: []string{"20011229~000000000", "200112290020020101"}},                         // remove the first record, then add it back
 		{calls: []string{"209912310120991231" + "209912311020991231"}, kind: "fix-same-day-twice-in-one-call"},
+		// extended name tables: records with name index 9 ('9') and 10 (':'), then replaced / removed like any other
+		{calls: []string{"20210312:120210312"}, extra: 2},
+		{calls: []string{"20210312:120210312", "202103129020210308"}, extra: 2},
+		{calls: []string{"20210312:120210312", "20210312~000000000"}, extra: 2},
+		{calls: []string{"202103139120210313", "20210313:020210312", "20210313~000000000"}, extra: 3},
 	}
 	// seeded random histories on existing records (replace / remove / add around them)
 	nRandFix := 6
@@ -735,7 +741,14 @@ func searchC14() {
 				}
 			}
 			applied := true
-			for _, dt := range fx.calls {
+			fxNames := names
+			if fx.extra > 0 {
+				fxNames = append([]string{}, names...)
+				for j := 1; j <= fx.extra; j++ {
+					fxNames = append(fxNames, fmt.Sprintf("X%d", j))
+				}
+			}
+			for di, dt := range fx.calls {
 				func() {
 					defer func() {
 						if e := recover(); e != nil {
@@ -743,7 +756,11 @@ func searchC14() {
 							rep.report(kind, input, fmt.Sprintf("Fix panicked: %v", e), "no panic")
 						}
 					}()
-					HolidayUtil.Fix(nil, dt)
+					var nm []string
+					if fx.extra > 0 && di == 0 {
+						nm = fxNames
+					}
+					HolidayUtil.Fix(nm, dt)
 				}()
 			}
 			count++
@@ -784,7 +801,7 @@ func searchC14() {
 					kd = "fix-target-noncontiguous" // same mechanism as target-view-missing, brought about by the fix-up
 				}
 				rep.report(kd, input, cat+" view of "+key+": "+observed, expected)
-			}, exp, names, years, k, extraT)
+			}, exp, fxNames, years, k, extraT)
 		}()
 	}
 	HolidayUtil.VerifReset()
